@@ -61,6 +61,7 @@ def run_property(chk: Check, pid: str, props_module: str, theorems: List[str], m
         if "harness_error" in r:
             chk.broken_obligation("harness failure running the manager", r["harness_error"][-600:])
             return
+        h.finalize(r)
         enc = C.encode_obs(r, h.it)
         if not getattr(h, "impl_only", False):
             cases.append(f"({h.coq_input()}, {C.zl(enc)})")
@@ -122,8 +123,9 @@ def run_property(chk: Check, pid: str, props_module: str, theorems: List[str], m
         "fake sockets stand for TCP: sendall is all-or-nothing per call, a failing connection keeps failing, a closed "
         "socket raises EBADF, recv with MSG_WAITALL returns all requested bytes or a short read at EOF",
         "set iteration order pinned (ascending uid) by the harness; Python recursion limit / fd limits not modelled",
-        "control frames carry at least the full payload of their message definition (shorter ones would be decoded "
-        "from stale buffer contents: not modelled)",
+        "a control frame shorter than its message definition is decoded by the manager from its shared receive buffer; "
+        "WHICH bytes it decodes is observed in the implementation run and handed to the model as that frame's payload "
+        "(the theorems quantify over every payload value, so they cover these frames; the buffer itself is not modelled)",
     ]
 
 
